@@ -527,7 +527,7 @@ def seq_events(w: World):
     return out
 
 
-def h_seq(c, k=3, first=None, second=None, allow=None, via_mode='choose'):
+def h_seq(c, k=3, first=None, second=None, allow=None, via_phase=0):
     with IntShim(c.symbolic):
         w = World(c, with_session=False)
         g = Ghost(c, w)
@@ -548,7 +548,7 @@ def h_seq(c, k=3, first=None, second=None, allow=None, via_mode='choose'):
             ev = ev_sig(w.dn, kind, conn)
             via = 'event'
             if kind == 'incoming':      # real accept path or real server-relayed path
-                via = c.pick(('accept', 'indirect'), f'via{step}') if via_mode == 'choose' else ('accept', 'indirect')[step % 2]
+                via = ('accept', 'indirect')[(step + via_phase) % 2]
             apply_event(c, w, g, kind, conn, tag=f'_{step}', via=via)
             if not g.check(ev):
                 break       # report the event that broke the property, not the ones that inherit the broken state
@@ -717,7 +717,7 @@ def jobs(tier):
                             'requires': ['quiescent']})
         for first in ('incoming', 'pp_list', 'user_stats', 'reset', 'session_destroyed'):
             for second in range(SEQ_SECOND[first]):
-                out.append({'harness': 'seq', 'fn': h_seq, 'params': {'k': 4, 'first': first, 'second': second, 'via_mode': 'alternate'},
+                out.append({'harness': 'seq', 'fn': h_seq, 'params': {'k': 4, 'first': first, 'second': second, 'via_phase': second % 2},
                             'requires': ['seq_end']})
     else:
         for t in _role_tuples(4, ('absent', 'cand', 'child', 'parent', 'connecting')):
@@ -725,8 +725,9 @@ def jobs(tier):
                 out.append({'harness': 'step', 'fn': h_step, 'params': {'roles': t, 'session': sess}, 'requires': ['quiescent']})
         for first in ('incoming', 'pp_list', 'user_stats', 'reset', 'session_destroyed'):
             for second in range(SEQ_SECOND[first]):
-                out.append({'harness': 'seq', 'fn': h_seq, 'params': {'k': 5, 'first': first, 'second': second},
-                            'requires': ['seq_end']})
+                for phase in (0, 1):
+                    out.append({'harness': 'seq', 'fn': h_seq, 'params': {'k': 5, 'first': first, 'second': second, 'via_phase': phase},
+                                'requires': ['seq_end']})
     q_roles = [['cand', 'cand', 'child'], ['parent', 'cand', 'child']]
     for t in (q_roles if tier == 'quick' else list(_role_tuples(3, ('absent', 'cand', 'child', 'parent')))):
         if all(r == 'absent' for r in t):
